@@ -227,6 +227,30 @@ func runProgram(p progIn) (res progOut) {
 		res.Emits = append(res.Emits, tk.toks(vs))
 		return 0
 	}))
+	L.SetGlobal("gret", L.NewFunction(func(L *lua.LState) int {
+		k := L.CheckInt(1)
+		n := L.GetTop()
+		for i := 0; i < k; i++ {
+			if 2+i <= n {
+				L.Push(L.Get(2 + i))
+			} else {
+				L.Push(lua.LNil)
+			}
+		}
+		return k
+	}))
+	L.SetGlobal("gcall", L.NewFunction(func(L *lua.LState) int {
+		n := L.GetTop()
+		if n == 0 {
+			L.RaiseError("gcall: function expected")
+		}
+		base := L.GetTop()
+		for i := 1; i <= n; i++ {
+			L.Push(L.Get(i))
+		}
+		L.Call(n-1, lua.MultRet)
+		return L.GetTop() - base
+	}))
 	registerHostFunctions(L, &res, tk, ctx)
 	defer func() {
 		res.Polls = ctx.polls
